@@ -153,7 +153,7 @@ def check_dataset(spec, d, rd, ref_d, tol, x_eff):
             # a relation that defines the same clp on this index takes precedence (the statement does not
             # say which of two contradictory items wins, so that combination is not judged)
             overruled = any(
-                r["target"] == c["target"] and r["source"] in labels and S.interval_applies(r.get("interval"), x)
+                r["target"] == c["target"] and S.interval_applies(r.get("interval"), x)  # (the source may live in a linked dataset)
                 for r in spec["relations"]
             )
             if applies and not overruled and C[i, k] != 0.0:
